@@ -219,8 +219,13 @@ def main(argv=None):
     if new:
         return 1
     if problems:
-        for pr in problems[:10]:
-            print('INCONCLUSIVE property=%s reason=%s' % (prop, pr[:600].replace('\n', ' | ')))
+        shown = set()
+        for pr in problems:
+            sig = ''.join(ch for ch in pr[:200] if not ch.isdigit())
+            if sig in shown or len(shown) >= 4:
+                continue
+            shown.add(sig)
+            print('INCONCLUSIVE property=%s reason=%s' % (prop, pr[:500].replace('\n', ' | ')))
         return 2
     return 0
 
